@@ -17,9 +17,10 @@ class C08(Prop):
             "webentities (None for none) the other ends resolve to; the three degree figures are the set sizes. "
             "non-trivial = some webentity has >= 1 internal, >= 1 outbound and >= 1 inbound link.")
     MODES = ("url", "url", "mixed")
-    LONG_BIAS = 0.1
+    LONG_BIAS = 0.2
+    BACKENDS = ("file", "file", "memory")
     WEIGHTS = {"page": 2, "pages": 2, "links": 6, "batch": 5, "again": 1, "create": 3, "delete": 1, "addprefix": 2,
-               "rmprefix": 1, "move": 1, "rule": 1, "unrule": 1, "reopen": 1}
+               "rmprefix": 1, "move": 1, "rule": 1, "unrule": 1, "reopen": 1, "clear": 1}
     QUICK = (40, 20)
     THOROUGH = (200, 40)
     ASSUMPTIONS = ["relational oracle: get_page_links + retrieve_webentity + prefix enumeration of the same index are the reference"]
